@@ -76,6 +76,8 @@ def run(ctx):
     start = (verb + 1,)
     seen, trans, prob = explore(m, [start], is_opaque=lambda s: s == (verb,))
     r2 = rep.rule('C13-R2', 'http_parse is a pure byte-at-a-time fold: for every reachable state and every byte the loop body is evaluated to exactly one successor state, reading only the current byte; FAIL and CONTENT are absorbing', floor=3)
+    fp = m.frame_problems()
+    rep.check(r2, not fp, 'loop-is-all', 'the function is nothing but the byte loop starting at offset 0: %s' % (fp or 'ok'), '%s:%d' % (f.file, f.line))
     rep.check(r2, not prob and not m.impure, 'fold-shape', '%d states x 256 bytes evaluated; undecidable transitions: %d; reads other than data[i]: %d' % (len(seen), len(prob), len(m.impure)),
               '%s:%d' % (f.file, f.line))
     for nm, v in [('FAIL', FAIL), ('CONTENT', CONTENT)]:
@@ -145,3 +147,10 @@ def run(ctx):
             # promoted / by-value array constant
             ok = any(isinstance(x, tuple) and x[0] == 'agg' and x[1] == 'array' and len(x[2]) == 9 for e in its for x in walk(e))
         rep.check(r4, ok, fid + ':iterates-HTTP_VERBS', 'iterates over %s' % [short(e)[:80] for e in its], '%s:%d' % (g_.file, g_.line))
+    # unknown methods: the parser's own method matcher folds case, so it is the dispatcher's byte-exact signature
+    # 'VERB /' that keeps 'get /' etc. out; that matcher must therefore be built case-sensitive
+    pi = F.fn('proto::proto_init')
+    nw = pi.calls(r'Smack::new$')
+    cs = [const_val(pi.argv(b, 1)) for b, _ in nw]
+    rep.check(r4, cs == [0], 'dispatcher-is-case-sensitive', 'the protocol matcher is built with nocase=%s (an unknown method differing from a known one only by letter case must not be dispatched)' % cs, pi.loc(nw[0][0]) if nw else '')
+
